@@ -236,10 +236,12 @@ def handle : Handler := fun j a => do
           let asyncEscape := cfg.async && sw.causeAuto && cfg.asyncAllowedLag > 0
           -- "the only exception is the configured allowed lag of async mode during AUTOMATIC failover": a node that is
           -- promoted although a frozen member holds transactions it has not executed used that exception
+          -- (a server the scenario killed during the freeze may have executed its freeze statements without the procedure
+          -- ever seeing the answers: when it is dead at this moment it is no frozen member the procedure relies on)
           let behind := active.any fun f =>
             (ro f && (f == oldMaster || io f)) &&
             (match nodes.find? (·.host == f) with
-             | some nf => f != h && nf.ro && !contain ex (totalOf nf)
+             | some nf => f != h && nf.ro && !(f == killedHost && !nf.alive) && !contain ex (totalOf nf)
              | none => false)
           if behind && !asyncEscape then
             a := a.violationSig "C01:promoted-behind-a-frozen-member-outside-the-async-exception" s!"promoted {h} with {nm.executed}; {j.compress}"
